@@ -136,7 +136,9 @@ def work(job):
                                 line=o.line, case=o.case, label=o.label, vacuity=True))
                 continue
             r = smt.check_valid(o.premises, o.goal, timeout_ms=timeout_ms)
-            if r.status == "unknown" and not os.environ.get("PVC_NO_RETRY"):
+            if r.status == "unknown" and not os.environ.get("PVC_NO_RETRY") and not any(x.get("status") == "refuted" for x in res):
+                # (skipped once an obligation of this function has been refuted: the function's verdict is then a violation
+                # whatever the remaining unknowns turn out to be, and the unchanged tree - nothing refuted - is unaffected)
                 # one more attempt with three times the budget before anything is called undecided: a verdict must not
                 # flip because the machine happened to be busy (an obligation that is really out of reach costs a few
                 # minutes more, on a changed tree only)
